@@ -106,13 +106,43 @@ func H_C20_generators() {
 	vreach("end")
 }
 
+// tail-recursive definitions (every turn calls probe) x calling contexts: the caller's
+// frame may be pinned by a pending fork (array construction, comma, try, //, first, ...)
+var c20RecDefs = []string{
+	`def f: probe | if . < $n then . + 1 | f else . end;`,
+	`def f: probe | . as $x | if $x < $n then $x + 1 | f else $x end;`,
+	`def f: probe | . as $x | [$x] as [$y] | if $y < $n then $y + 1 | f else $y end;`,
+	`def f: probe | 1 as $one | if . < $n then . + $one | f else . end;`,
+	`def f: probe | if . < $n then . + 1 | f elif . < 0 then empty else . end;`,
+	`def f: probe | (select(. >= $n)) // (. + 1 | f);`,
+	`def f: probe | if . >= $n then . else empty, (. + 1 | f) end;`,
+}
+
+var c20RecUses = []string{
+	`0 | f`, `[0 | f]`, `(0 | f), 9`, `try (0 | f) catch .`, `(0 | f) // 1`, `first(0 | f)`, `0 | f as $r | $r`, `[1, 2] | map(0 | f)`, `reduce (0 | f) as $r (0; . + $r)`,
+	`label $l | 0 | f`, `{a: (0 | f)}`, `(0 | f)?`, `0 | [f, f]`, `1 as $v | 0 | f`, `def g: 0 | f; [g]`, `[limit(1; 0 | f)]`, `[0 | f] | length`, `if (0 | f) then 1 else 2 end`, `"\(0 | f)"`,
+}
+
+func vmemo_c20Rec(d, u int) string { return c20RecDefs[d] + " " + c20RecUses[u] }
+
+// H_C20_rec: the product of tail-recursive definitions and calling contexts.
+func H_C20_rec() {
+	src := vmemo_c20Rec(nondetChoice(len(c20RecDefs)), nondetChoice(len(c20RecUses)))
+	vlabel("prog", src)
+	c20Loop(src)
+}
+
 func H_C20_loops() {
 	k := nondetChoice(len(c20Loops))
 	vlabel("prog", c20Loops[k])
 	if k == len(c20Loops)-1 {
 		vlabel("class", "tail call to an enclosing definition")
 	}
-	q := vmemo_parse(c20Loops[k])
+	c20Loop(c20Loops[k])
+}
+
+func c20Loop(src string) {
+	q := vmemo_parse(src)
 	if q == nil {
 		vassert(false, "program parses")
 		return
